@@ -470,7 +470,7 @@ def run(ctx: Ctx):
         "or refer to datasets that never existed; a forged ref (live id with a different type or data ID) is outside the domain",
     ]
     ctx.cov["rule"] = (
-        "a history (30 ops quick / 120 thorough over 5+1 collection names, 3+1 dataset types, 4+2 data ids, ids reused on "
+        "a history (30 ops quick / 80 thorough over 5+1 collection names, 3+1 dataset types, 4+2 data ids, ids reused on "
         "purpose) is non-trivial when it contains at least one refused uniqueness conflict, one accepted associate that "
         "changed a TAGGED collection, one accepted insert/import and one removal that deleted tag rows; every step of every "
         "history is probed through 8 interfaces over every (collection, type, data id)"
@@ -491,7 +491,7 @@ def run(ctx: Ctx):
         j = json.load(open(ctx.replay))
         hists, origins, ncorpus = [j["history"]], ["replay"], 1
     else:
-        nh, ln = (40, 30) if ctx.quick else (220, 120)
+        nh, ln = (40, 30) if ctx.quick else (150, 80)
         for k in range(nh):
             hists.append(gen_history(ctx.rng, ln if k % 5 else ln // 2))
             origins.append(f"seed{ctx.seed}/{k}")
